@@ -25,12 +25,14 @@ duckdb_to_sf_type = {
     "DATE": "date",
     "DECIMAL": "fixed",
     "DOUBLE": "real",
+    "HUGEINT": "fixed",
     "INTEGER": "fixed",
     "JSON": "variant",
     "TIME": "time",
     "TIMESTAMP WITH TIME ZONE": "timestamp_tz",
     "TIMESTAMP_NS": "timestamp_ntz",
     "TIMESTAMP": "timestamp_ntz",
+    "UBIGINT": "fixed",
     "VARCHAR": "text",
 }
 
